@@ -174,8 +174,54 @@ KNOWN = {"C14-short-frame": k_short, "C14-tc29-reserved-subtype": k_st29}
 MODEL_POST = model_class
 
 
+def klass_pair(m0, m1, ref):
+    import pyModeS
+    try:
+        if ref:
+            pyModeS.adsb.position(m0, m1, 1, 2, 52.0, 4.0)
+        else:
+            pyModeS.adsb.position(m0, m1, 1, 2)
+        return "val"
+    except RuntimeError:
+        return "RE"
+    except Exception:  # noqa
+        return "EXC"
+
+
 def cases(ctx):
     rng = ctx.rng
+    # position() routes a pair exactly by the two type codes
+    for tc0 in range(32):
+        for tc1 in range(32):
+            for ref in (False, True):
+                f0 = spec.adsb_frame(rng, tc0, [(21, 1, 0)], df=rng.choice([17, 18]))
+                f1 = spec.adsb_frame(rng, tc1, [(21, 1, 1)], df=rng.choice([17, 18]))
+                m0, m1 = hex_of(f0), hex_of(f1)
+                surf = 5 <= tc0 <= 8 and 5 <= tc1 <= 8
+                air = (9 <= tc0 <= 18 and 9 <= tc1 <= 18) or (20 <= tc0 <= 22 and 20 <= tc1 <= 22)
+                inside = air or (surf and ref)
+                yield dict(op=("position %s %s 1 2 52/1 4/1" if ref else "position %s %s 1 2") % (m0, m1), real=("h:props.C14.klass_pair", [m0, m1, ref]),
+                           pred=["pred_class", inside, 112, True, "position"], tag="pair-in" if inside else "pair-out", trivial=not inside,
+                           info=dict(df=17, tc=tc0, st2=None, n=112, long_only=True, fn="position"))
+    # boundary payloads: every movement code / every character code through the total-function checks
+    for mov in range(128):
+        m = hex_of(spec.adsb_frame(rng, rng.randrange(5, 9), [(5, 7, mov)], df=17))
+        for name in ("pyModeS.adsb.surface_velocity", "pyModeS.adsb.velocity", "pyModeS.adsb.speed_heading", "h:props.C14.tell_quiet"):
+            op, path, args, doc, long_only = F[name]
+            yield dict(op=(op + " " + m) if op else None, real=("h:props.C14.klass", [path, args, m]), pred=["pred_class", True, 112, long_only, path],
+                       tag="boundary-mov", info=dict(df=17, tc=5, st2=None, n=112, long_only=long_only, fn=path))
+    for code in range(64):
+        for pos in range(8):
+            m = hex_of(spec.adsb_frame(rng, rng.randrange(1, 5), [(8 + 6 * pos, 6, code)], df=17))
+            for name in ("pyModeS.adsb.callsign", "h:props.C14.tell_quiet"):
+                op, path, args, doc, long_only = F[name]
+                yield dict(op=(op + " " + m) if op else None, real=("h:props.C14.klass", [path, args, m]), pred=["pred_class", True, 112, long_only, path],
+                           tag="boundary-char", info=dict(df=17, tc=1, st2=None, n=112, long_only=long_only, fn=path))
+            mb = hex_of(spec.commb_frame(rng, 20, [(0, 8, 0x20), (8 + 6 * pos, 6, code)]))
+            for name in ("pyModeS.commb.cs20", "pyModeS.commb.is20"):
+                op, path, args, doc, long_only = F[name]
+                yield dict(op=op + " " + mb, real=("h:props.C14.klass", [path, args, mb]), pred=["pred_class", True, 112, long_only, path],
+                           tag="boundary-char", info=dict(df=20, tc=0, st2=None, n=112, long_only=long_only, fn=path))
     styles = ["zero", "one", "rand", "rand"] if not ctx.thorough else ["zero", "one"] + ["rand"] * 6
     for df in range(32):
         tcs = range(32) if df in (17, 18) else [rng.randrange(32), rng.randrange(32)]
